@@ -1,5 +1,5 @@
 (** Evaluator glue for C03. *)
-From AGH Require Export Base.Run Base.NetAddr Base.RuleEngine Model.Access.
+From AGH Require Export Base.Run Base.NetAddr Base.RuleEngine Model.Access Model.AccessPersist.
 Local Open Scope N_scope.
 
 Definition rulekind_eqb (a b : rulekind) : bool :=
@@ -71,7 +71,54 @@ Inductive case :=
           (ops : list hop) (obs : list hobs) (obs_count : N)
   (* the server's own cache (capacity [cap]): request 1 is admitted with
      ClientID "kid", then [n] more such requests, then request 1 is read *)
-  | CEvict (cap n : N) (obs : bytes).
+  | CEvict (cap n : N) (obs : bytes)
+  (* the access settings across persistence and restart: the file's lists at
+     the start, the server's TLS name and strict flag, a history of
+     access/set, other saves, restarts, access/list and requests; observed
+     per step: the result, and the lists in the saved configuration after
+     the step ([None]: the same as after the previous step, at first the
+     file's) *)
+  | CPersist (c0 : lists) (srv : bytes) (strict : bool) (ops : list pop)
+             (obs : list (pobs * option (list bytes * list bytes * list bytes))).
+
+Definition set_result_eqb (a b : set_result) : bool :=
+  match a, b with
+  | SetOK, SetOK | ErrDecode, ErrDecode | ErrDupAllowed, ErrDupAllowed
+  | ErrDupBlocked, ErrDupBlocked | ErrDupHosts, ErrDupHosts | ErrIntersect, ErrIntersect
+  | ErrBadAllowed, ErrBadAllowed | ErrBadBlocked, ErrBadBlocked => true
+  | _, _ => false
+  end.
+
+Definition texts_eqb (a b : list bytes * list bytes * list bytes) : bool :=
+  let '(a1, a2, a3) := a in
+  let '(b1, b2, b3) := b in
+  eqb_list eqb_bytes a1 b1 && eqb_list eqb_bytes a2 b2 && eqb_list eqb_bytes a3 b3.
+
+Definition pobs_eqb (a b : pobs) : bool :=
+  match a, b with
+  | QSet x, QSet y => set_result_eqb x y
+  | QSave, QSave => true
+  | QRestart x, QRestart y => Bool.eqb x y
+  | QList x, QList y => texts_eqb x y
+  | QProbe x, QProbe y => before_class x =? before_class y
+  | _, _ => false
+  end.
+
+(** The saved lists of every step written out. *)
+Fixpoint fill_saved (prev : list bytes * list bytes * list bytes)
+    (obs : list (pobs * option (list bytes * list bytes * list bytes)))
+    : list (pobs * (list bytes * list bytes * list bytes)) :=
+  match obs with
+  | nil => nil
+  | (o, None) :: r => (o, prev) :: fill_saved prev r
+  | (o, Some t) :: r => (o, t) :: fill_saved t r
+  end.
+
+Definition persist_trace (c0 : lists) (srv : bytes) (strict : bool) (ops : list pop) :=
+  match boot c0 with
+  | Some w => Some (snd (prun (mkTlsConf srv strict) w ops))
+  | None => None
+  end.
 
 Definition count_handler (st : N) (_ : unit) : N * unit := (st + 1, tt).
 
@@ -96,24 +143,34 @@ Definition case_ok (c : case) : bool :=
       let '(c, o) := run_hist cap (new_access al bl hosts) (mkTlsConf srv strict) nil ops in
       eqb_list hobs_eqb o obs && (N.of_nat (length c) =? n)
   | CEvict cap n obs => eqb_bytes (evict_read cap n) obs
+  | CPersist c0 srv strict ops obs =>
+      match persist_trace c0 srv strict ops with
+      | Some tr => eqb_list (fun a b => pobs_eqb (fst a) (fst b) && texts_eqb (snd a) (snd b)) tr
+                     (fill_saved (lists_texts c0) obs)
+      | None => false
+      end
   end.
 
 Definition mismatches := Base.Run.mismatches case_ok.
 
+Definition no_trace : option (list (pobs * (list bytes * list bytes * list bytes))) := None.
+
 Definition explain (c : case) :=
   match c with
+  | CPersist c0 srv strict ops _ =>
+      (false, RkNone, BDrop, @nil hobs, persist_trace c0 srv strict ops)
   | CDecide al bl ip id _ _ =>
       let r := is_blocked_client (new_access al bl nil) ip id in
-      (fst r, snd r, BDrop, @nil hobs)
+      (fst r, snd r, BDrop, @nil hobs, no_trace)
   | CHost hosts host qt _ =>
-      (is_blocked_host (new_access nil nil hosts) host qt, RkNone, BDrop, nil)
+      (is_blocked_host (new_access nil nil hosts) host qt, RkNone, BDrop, nil, no_trace)
   | CBefore al bl hosts p cid ip q _ =>
-      (false, RkNone, handle_before (new_access al bl hosts) p cid ip q, nil)
+      (false, RkNone, handle_before (new_access al bl hosts) p cid ip q, nil, no_trace)
   | CWire al bl hosts p cid ip q _ _ =>
-      (false, RkNone, handle_before (new_access al bl hosts) p cid ip q, nil)
+      (false, RkNone, handle_before (new_access al bl hosts) p cid ip q, nil, no_trace)
   | CCtx al bl hosts srv strict x _ =>
-      (false, RkNone, handle_before_ctx (new_access al bl hosts) (mkTlsConf srv strict) x, nil)
+      (false, RkNone, handle_before_ctx (new_access al bl hosts) (mkTlsConf srv strict) x, nil, no_trace)
   | CHist cap al bl hosts srv strict ops _ _ =>
-      (false, RkNone, BDrop, snd (run_hist cap (new_access al bl hosts) (mkTlsConf srv strict) nil ops))
-  | CEvict cap n _ => (false, RkNone, BDrop, OInitial (evict_read cap n) :: nil)
+      (false, RkNone, BDrop, snd (run_hist cap (new_access al bl hosts) (mkTlsConf srv strict) nil ops), no_trace)
+  | CEvict cap n _ => (false, RkNone, BDrop, OInitial (evict_read cap n) :: nil, no_trace)
   end.
